@@ -211,7 +211,43 @@ def install() -> None:
         kernel_spy._sophtverif = True  # type: ignore[attr-defined]
         ps.kernel = kernel_spy
         ps.create_kernel = create_kernel_spy
+        _memoise_numba_generators()
         _INSTALLED = True
+
+
+_NUMBA_GEN_MEMO: dict = {}
+
+
+def _memoise_numba_generators() -> None:
+    """Memoise the communicator kernel generators (pure functions of their arguments).
+
+    Every call of a ``generate_*_kernel_{2,3}d`` function creates new numba dispatchers whose machine code is never
+    unloaded; a check that builds hundreds of interaction objects per process would otherwise grow by gigabytes.
+    The repo's generator still runs for every distinct argument tuple, so a change in /repo is still exercised.
+    """
+    import importlib
+
+    for modname in ("sopht.numeric.immersed_boundary_ops.EulerianLagrangianGridCommunicator2D",
+                    "sopht.numeric.immersed_boundary_ops.EulerianLagrangianGridCommunicator3D"):
+        mod = importlib.import_module(modname)
+        for name in list(vars(mod)):
+            fn = getattr(mod, name)
+            if not (name.startswith("generate_") and callable(fn)) or getattr(fn, "_sophtverif_memo", False):
+                continue
+
+            def make(fn=fn, name=name):
+                def wrapper(*args, **kwargs):
+                    key = (name, tuple(repr(a) + str(type(a)) for a in args),
+                           tuple(sorted((k, repr(v) + str(type(v))) for k, v in kwargs.items())))
+                    if key not in _NUMBA_GEN_MEMO:
+                        _NUMBA_GEN_MEMO[key] = fn(*args, **kwargs)
+                    return _NUMBA_GEN_MEMO[key]
+
+                wrapper._sophtverif_memo = True  # type: ignore[attr-defined]
+                wrapper.__wrapped__ = fn  # type: ignore[attr-defined]
+                return wrapper
+
+            setattr(mod, name, make())
 
 
 def stencil(name: str) -> KernelRecord:
